@@ -13,6 +13,7 @@ use std::sync::Arc;
 
 pub struct Canary {
     pub id: usize,
+    pub bomb: bool,
 }
 
 pub static DROPS: AtomicUsize = AtomicUsize::new(0);
@@ -20,13 +21,16 @@ pub static DROPS: AtomicUsize = AtomicUsize::new(0);
 impl Drop for Canary {
     fn drop(&mut self) {
         DROPS.fetch_add(1, Ordering::SeqCst);
+        if self.bomb {
+            panic!("destructor of snapshot {} panics", self.id);
+        }
     }
 }
 
 #[derive(Clone, Debug)]
 enum Cmd {
     Read(usize),
-    Write(bool),
+    Write(bool, bool),
 }
 
 pub fn load_sites() -> HashMap<(String, u32), String> {
@@ -61,7 +65,7 @@ fn run_block(lines: &[String], out: &mut Out) {
             [t, "write", b] if t.starts_with('t') => {
                 let k: usize = t[1..].parse().unwrap();
                 while scripts.len() <= k { scripts.push(Vec::new()); }
-                scripts[k].push(Cmd::Write(*b == "1"));
+                scripts[k].push(Cmd::Write(*b != "0", *b == "2"));
             }
             ["seed", n] => seed = n.parse().unwrap(),
             ["maxsteps", n] => maxsteps = n.parse().unwrap(),
@@ -70,7 +74,7 @@ fn run_block(lines: &[String], out: &mut Out) {
         }
     }
     let s = sched::install(load_sites());
-    let probe = Arc::new(HalfLockProbe::new(Canary { id: 0 }));
+    let probe = Arc::new(HalfLockProbe::new(Canary { id: 0, bomb: false }));
     {
         let mut g = s.inner.lock().unwrap();
         for (n, a) in probe.layout() {
@@ -89,17 +93,21 @@ fn run_block(lines: &[String], out: &mut Out) {
                             sc.point(format!("use {}", c.id));
                         }
                     }),
-                    Cmd::Write(st) => {
+                    Cmd::Write(st, bomb) => {
                         let sc2 = sc.clone();
-                        p.write(move |_cur| {
-                            if st {
-                                // the id of the new snapshot is the allocation ordinal the shim will assign
-                                let id = sc2.inner.lock().unwrap().next_alloc;
-                                Some(Canary { id })
-                            } else {
-                                None
-                            }
-                        });
+                        let p2 = p.clone();
+                        // a panicking destructor unwinds out of `store`; the caller survives it
+                        let _ = std::panic::catch_unwind(std::panic::AssertUnwindSafe(move || {
+                            p2.write(move |_cur| {
+                                if st {
+                                    // the id of the new snapshot is the allocation ordinal the shim will assign
+                                    let id = sc2.inner.lock().unwrap().next_alloc;
+                                    Some(Canary { id, bomb })
+                                } else {
+                                    None
+                                }
+                            });
+                        }));
                     }
                 }
             }
@@ -136,6 +144,9 @@ fn run_block(lines: &[String], out: &mut Out) {
     let sch: Vec<String> = g.schedule.iter().map(|t| t.to_string()).collect();
     out.line(&format!("SCHEDULE {}", sch.join(" ")));
     out.line(&format!("END {}", status));
+    drop(g);
+    // the last published value may be one whose destructor panics
+    let _ = std::panic::catch_unwind(std::panic::AssertUnwindSafe(move || drop(probe)));
 }
 
 pub fn main() -> i32 {
